@@ -9,6 +9,7 @@ LEVEL = "proof"
 PROPS = "Props/C11.vo"
 MODEL_TARGETS = ["Corr/C11.vo"]
 OBLIGATION_FILES = ["Props/C11.v", "gen/GenOK11.v"]
+MODEL_TARGETS = ["Corr/C11.vo"]
 ANCHORS = [("ciscoconfparse2/ccp_util.py", q) for q in (
     "IPv4Obj.__init__", "IPv6Obj.__init__", "IPv4Obj.as_decimal", "IPv4Obj.as_decimal_network", "IPv4Obj.as_decimal_broadcast",
     "IPv6Obj.as_decimal", "IPv6Obj.as_decimal_network", "IPv6Obj.as_decimal_network_maxint", "IPv4Obj.numhosts", "IPv6Obj.numhosts",
@@ -30,9 +31,10 @@ ASSUMPTIONS = ["ipaddress (CPython 3.12) is the reference implementation named b
 TECHNIQUE = "Coq proof of the numeric identities over Z (network = addr AND netmask, masks, last address, numhosts) + vm_compute correspondence of real objects built through every form; textual acceptance/rejection by three-way differential test against ipaddress"
 LEVEL_TEXT = ("Numeric layer proved for all (address, prefix) pairs of both families: network = addr land netmask, netmask + hostmask = 2^W-1, last = network + hostmask, "
               "bounds, numhosts, host bits kept; the derived-value methods are re-translated from /repo on every run (gen/GenOK11.v). The object -> (addr, plen) reading of every "
-              "accepted textual form, and rejection of near-valid text, is tied three-way (model, implementation, ipaddress) on boundary-biased inputs and the one-edit neighbourhood.")
-LEVEL_NOTE = ("PARTIAL: the textual layer (which strings are accepted, what they denote, string renderings) is decided by differential testing against ipaddress, not by a theorem; "
-              "the numeric theorems are unbounded. Trusted: Coq kernel + vm_compute, translator, driver, ipaddress as reference.")
+              "accepted textual form, and rejection of near-valid text, is tied three-way (model, implementation, ipaddress) on boundary-biased inputs and the one-edit neighbourhood. "
+              "IPv4 text: every spelling a | a/len | a/mask | a<blanks>mask | a<blanks>hostmask with surrounding blanks parses to (a, p) (v4_parse_render, all a < 2^32, p <= 32) and accepted text is always in range (v4_parse_sound).")
+LEVEL_NOTE = ("PARTIAL: the IPv6 textual layer and all string renderings are decided by differential testing against ipaddress, not by a theorem; "
+              "the numeric theorems and the IPv4 textual theorems (v4_parse_render, v4_parse_sound about the hand model coq/Model/IPText.v, tied by the v4text stream) are unbounded. Trusted: Coq kernel + vm_compute, translator, driver, ipaddress as reference.")
 
 
 def _addr_pool(W, rng):
